@@ -322,9 +322,11 @@ func (ex *Exec) applyContract(s *State, fr *Frame, c *ssa.Call, f *ssa.Function,
 	// results
 	var results []Value
 	sig := f.Signature
+	ex.nullableResults = true
 	for i := 0; i < sig.Results().Len(); i++ {
 		results = append(results, ex.fresh(s, "ret."+f.Name(), ex.subst(sig.Results().At(i).Type())))
 	}
+	ex.nullableResults = false
 	post := &SpecEnv{ex: ex, cur: s, old: pre, vars: vars, results: results, fn: f, calleeMode: true, assigned: hv}
 	// frame facts for the simplifier: arrays havocked by this call agree with their pre-call
 	// versions outside the objects named in the contract's frame(...) clauses. Guarded frames
